@@ -34,7 +34,7 @@ REQUIRED = {"quick": {"selection": 1000, "local_ranks": 600, "lazy_iter": 300, "
             "thorough": {"selection": 5000, "local_ranks": 3000, "lazy_iter": 1500, "write_confinement": 1500}}
 
 
-def make_world(rng, kind, st=None):
+def make_world(rng, kind, st=None, nsyn=None):
     if st is None:
         st = trees.random_structure(rng, kind=kind, max_branches=4, max_cells=4, nmax=4)
     if kind == "network" and len(st["cells"]) < 2:
@@ -52,7 +52,7 @@ def make_world(rng, kind, st=None):
     n = len(comp)
     syn = []
     if kind == "network":
-        for _ in range(int(rng.integers(2, 9))):
+        for _ in range(int(rng.integers(2, 9)) if nsyn is None else nsyn):
             syn.append([int(rng.integers(0, n)), int(rng.integers(0, n)), int(rng.integers(0, 2))])
     groups = {}
     for g in ["ga", "gb"][: int(rng.integers(0, 3))]:
